@@ -28,7 +28,7 @@ template<typename T> struct ClsKind { typedef ds::quantiles_sketch<T, typename I
 
 bool is_pow2(u64 w) { return w != 0 && (w & (w - 1)) == 0; }
 
-enum { Q_BATCH = 1, Q_NAN = 2, Q_MERGE = 3, Q_NEW = 4, Q_READ = 5, Q_COPY = 6, Q_SERDE = 7, Q_INVALID = 8, Q_ITER = 9, Q_FILL = 10 };
+enum { Q_BATCH = 1, Q_NAN = 2, Q_MERGE = 3, Q_NEW = 4, Q_READ = 5, Q_COPY = 6, Q_SERDE = 7, Q_INVALID = 8, Q_ITER = 9, Q_FILL = 10, Q_EDGE_MERGE = 11 };
 
 // ------------------------------------------------------------------ C07 executor, generic over sketch kind and item type
 template<typename Kind, typename T> struct C07Exec {
@@ -200,6 +200,18 @@ template<typename Kind, typename T> struct C07Exec {
           const i64 target = static_cast<i64>(n.sk->get_k()) * mult[static_cast<size_t>(s.b) % 5] + off[static_cast<size_t>(s.b / 5) % 4];
           for (i64 j = static_cast<i64>(n.model.size()); j < target; j++) { i64 v = fam::feed_value(s.c, j, target, 2); n.sk->update(Item<T>::make(v)); n.model.push_back(v); }
           ctx.probe("fill_to_capacity_boundary"); break; }
+        case Q_EDGE_MERGE: {   // two fresh sketches of equal k whose item counts add up to a capacity boundary (or one off it), merged, then a long tail of updates
+          Node& src = nodes[(static_cast<size_t>(s.a) % nodes.size()) ^ 1]; if (!src.sk) break;
+          const int ki = static_cast<int>(s.c >> 8); n.sk.reset(new S(Kind::make(ki, hra))); n.model.clear(); src.sk.reset(new S(Kind::make(ki, hra))); src.model.clear();
+          static const int mult[] = { 6, 6, 1, 2, 3, 12 }; static const int off[] = { 0, 0, 0, -1, 1 };
+          const i64 k = n.sk->get_k(), total = std::max<i64>(2, k * mult[static_cast<size_t>(s.b) % 6] + off[static_cast<size_t>(s.b / 6) % 5]), first = 1 + (s.c & 255) % (total - 1);
+          for (i64 j = 0; j < first; j++) { i64 v = fam::feed_value(s.b, j, total, 2); n.sk->update(Item<T>::make(v)); n.model.push_back(v); }
+          for (i64 j = first; j < total; j++) { i64 v = fam::feed_value(s.b, j, total, 2); src.sk->update(Item<T>::make(v)); src.model.push_back(v); }
+          n.sk->merge(*src.sk); n.model.insert(n.model.end(), src.model.begin(), src.model.end());
+          check_basic(n, "merge landing on a capacity boundary");
+          const i64 tail = k * 400;
+          for (i64 j = 0; j < tail; j++) { i64 v = fam::feed_value(s.b + 1, j, tail, 2); n.sk->update(Item<T>::make(v)); n.model.push_back(v); }
+          ctx.probe("edge_merge_then_tail"); ctx.nontrivial = true; break; }
         case Q_MERGE: {
           Node& src = nodes[static_cast<size_t>(s.b) % nodes.size()];
           if (!src.sk || &src == &n || !Kind::mergeable(*n.sk, *src.sk)) break;
@@ -220,7 +232,7 @@ template<typename Kind, typename T> struct C07Exec {
     }
     ctx.probe("coin_bits_drawn", rnd.bits_drawn);
   }
-  static const char* step_name(int k) { static const char* nm[] = { "?", "batch", "nan", "merge", "new", "read", "copy", "serde", "invalid_query", "iterate", "fill_to_boundary" }; return (k >= 1 && k <= 10) ? nm[k] : "step"; }
+  static const char* step_name(int k) { static const char* nm[] = { "?", "batch", "nan", "merge", "new", "read", "copy", "serde", "invalid_query", "iterate", "fill_to_boundary", "edge_merge_then_tail" }; return (k >= 1 && k <= 11) ? nm[k] : "step"; }
 };
 
 struct C07World: World {
@@ -235,7 +247,7 @@ struct C07World: World {
     for (int i = 0; i < n; i++) {
       Step s; unsigned roll = static_cast<unsigned>(rp.below(100)); s.a = static_cast<i64>(rp.below(4));
       if (roll < 38) { s.kind = Q_BATCH; s.b = static_cast<i64>(rp.below(2000)); static const i64 cnt[] = { 0, 1, 2, 3, 7, 8, 9, 16, 17, 40, 100, 130, 400, 1000, 3000 }; i64 c = rp.pick(cnt); if (!tier && c > 1000) c = 1000; if (rp.chance(1, 4)) c = 100000 + static_cast<i64>(rp.below(12)); s.c = c * 8 + static_cast<i64>(rp.below(8)); }
-      else if (roll < 41) { if (rp.chance(1, 3)) s.kind = Q_NAN; else { s.kind = Q_FILL; s.b = static_cast<i64>(rp.below(20)); s.c = static_cast<i64>(rp.below(2000)); } }
+      else if (roll < 41) { if (rp.chance(1, 3)) s.kind = Q_NAN; else if (rp.chance(1, 3)) { s.kind = Q_EDGE_MERGE; s.b = static_cast<i64>(rp.below(30)); s.c = static_cast<i64>(rp.below(256)) + 256 * static_cast<i64>(rp.below(tier ? 5 : 3)); } else { s.kind = Q_FILL; s.b = static_cast<i64>(rp.below(20)); s.c = static_cast<i64>(rp.below(2000)); } }
       else if (roll < 58) { s.kind = Q_MERGE; s.b = static_cast<i64>(rp.below(4)); s.c = static_cast<i64>(rp.below(16)); }
       else if (roll < 66) { s.kind = Q_NEW; s.b = static_cast<i64>(rp.below(8)); }
       else if (roll < 84) { s.kind = Q_READ; s.b = static_cast<i64>(rp.below(1000)); }
